@@ -63,6 +63,27 @@ Proof. intros. eapply fc_detects; eauto using fc_checks_component. Qed.
 
 (* ---------- facilities ---------- *)
 
+(* ---------- the parent recorded by FinalConstruct(parent) ---------- *)
+
+Lemma fc_checks_split pp rp clients : fc_checks pp rp clients = fc_boundary pp rp clients ++ fc_own pp rp.
+Proof. unfold fc_checks, fc_boundary, fc_own. now rewrite <- !app_assoc. Qed.
+
+Lemma run_agrees m recorded given pp rp clients :
+  fst (final_construct_run m recorded given pp rp clients) = final_construct m pp rp clients.
+Proof.
+  unfold final_construct_run, final_construct. rewrite fc_checks_split, forallb_app.
+  destruct (forallb _ (fc_boundary pp rp clients)); reflexivity.
+Qed.
+
+Lemma run_records m recorded given pp rp clients :
+  fst (final_construct_run m recorded given pp rp clients) = true -> snd (final_construct_run m recorded given pp rp clients) = given.
+Proof. unfold final_construct_run. destruct (forallb _ (fc_boundary pp rp clients)); cbn; [reflexivity|discriminate]. Qed.
+
+Lemma run_boundary_failure_keeps m recorded given pp rp clients :
+  forallb (fun op => bound m (fst op) (snd op)) (fc_boundary pp rp clients) = false ->
+  final_construct_run m recorded given pp rp clients = (false, recorded).
+Proof. unfold final_construct_run. now intros ->. Qed.
+
 Lemma service_eqb_eq a b : service_eqb a b = true <-> a = b.
 Proof.
   destruct a as [| |x], b as [| |y]; cbn; split; intros E; try discriminate; auto.
